@@ -79,7 +79,11 @@ def _report_gaps(v, listed, pending, reproduced_expected):
     for key, info in pending.items():
         if key in listed:
             v.known_finding(key, "%s (%d generated cases; e.g. %s)" % (GAP_TEXT[key], info["count"], info["example"][:300]))
-        # not listed: recorded in the evidence only (coverage["unlisted_findings"])
+        else:
+            # not listed as an open finding (never listed, or repaired): it is a violation again
+            rp = os.path.join(vlib.OUT, PID, "gap_%s.json" % key)
+            json.dump(info.get("replay"), open(rp, "w"))
+            v.violation("%s (%d generated cases; e.g. %s)" % (GAP_TEXT[key], info["count"], str(info["example"])[:300]), [rp])
     for key in listed:
         if key in reproduced_expected and key not in pending:
             v.notes.append("KNOWN-FINDING-NOT-REPRODUCED: property=%s %s" % (PID, key))
@@ -126,7 +130,7 @@ def run(tier, v):
         nyears = len(re.search(r"\bYears = \{([^}]*)\}", cfgtxt).group(1).split(","))
         if rep["cases"] != nlines or nlines < 40 * nyears or c.get("gate_lines", 0) < 200:
             raise vlib.Inconclusive("Gen produced too few cases (%d lines)" % nlines)
-        if rep["nontrivial"] < 0.5 * nlines or c.get("verdict_true", 0) < 0.05 * rep["steps"]:
+        if rep["nontrivial"] < 0.3 * nlines or c.get("verdict_true", 0) < 0.02 * rep["steps"]:
             raise vlib.Inconclusive("generated cases are vacuous (verdicts not balanced)")
         for z in ("", "UTC", "Europe/Berlin", "America/New_York", "Australia/Lord_Howe", "Asia/Kolkata", "Asia/Kathmandu"):
             if c.get("zone_" + z, 0) < nyears:
